@@ -575,6 +575,7 @@ class TableTask(object):
                 if not free:
                     break
                 s.add(z3.Or([v != x for v, x in zip(free, vals)]))
+                smt.beat(60.0)
                 r = s.check()
             model = dict(cex[0])
             model['counterexamples'] = cex
